@@ -927,6 +927,70 @@ def evaluate_cases(ck, cases, formats, header, newfile):
     return res
 
 
+ODD_STEMS = ["run#3", "scan%41", "set:x", "a b", "q?z", "x&y=1", "n\u00e9", "it's", "-dash", "50%", "a;b", "c:", "w#", "x%zz", "[1]", "~t", "u+v", "http:x"]
+
+
+def names_case(written, text, stem, ext, relative, entry, tmp):
+    """-> None | (key, what): the text (written by `written`) stored under an unusual but legal file name must load through the
+    file-based entry point exactly as the same text loads from a string"""
+    import diffpy.structure as ds
+
+    name = stem + ext
+    path = os.path.join(tmp, name)
+    with open(path, "wb") as f:
+        f.write(text.encode("utf-8"))
+    cwd = os.getcwd()
+    try:
+        if relative:
+            os.chdir(tmp)
+        got = run_auto(entry, text, name if relative else path)
+        if got[0] == "ok" and os.path.exists(path):
+            with open(path, "rb") as f:
+                if f.read() != text.encode("utf-8"):
+                    return ("names:file-changed", "loading %r changed the file" % name)
+    finally:
+        os.chdir(cwd)
+        try:
+            os.remove(path)
+        except OSError:
+            pass
+    with quiet():
+        try:
+            ref = ds.Structure()
+            ref.readStr(text, written)
+        except Exception as e:  # noqa: BLE001
+            return None   # the written format cannot be re-read at all: not this stream's business
+    kind = "%s:%s" % (written, "rel" if relative else "abs")
+    if got[0] != "ok":
+        return ("names:%s:%s" % (kind, got[1]), "%s text in the file %r (%s path) via %s: automatic loading fails with %s: %s" % (
+            written, name, "relative" if relative else "absolute", entry, got[1], got[2][:120]))
+    if not close_sig(sig(got[2]), sig(ref), 1e-4):
+        return ("names:%s:differs" % kind, "%s text in the file %r via %s: the loaded structure differs from the one read from the same text as a string" % (
+            written, name, entry))
+    return None
+
+
+def names_stream(ck, cases, tmp):
+    seen = {}
+    for c in cases:
+        if c["stream"] == "written" and c["written"] not in seen and not c.get("odd_title") and not c.get("special_title"):
+            seen[c["written"]] = c["text"]
+    n = 0
+    k = 0
+    for g, text in sorted(seen.items()):
+        for stem in ODD_STEMS:
+            for ext in ("", ".dat", ".cif") if ck.tier == "quick" else ("", ".dat", ".cif", ".stru", ".xyz"):
+                k += 1
+                relative = bool(k % 2)
+                entry = FILE_ENTRIES[k % len(FILE_ENTRIES)]
+                n += 1
+                bad = names_case(g, text, stem, ext, relative, entry, tmp)
+                if bad:
+                    ck.fail(bad[0], bad[1], {"kind": "names", "written": g, "text": text, "stem": stem, "ext": ext, "relative": relative, "entry": entry})
+    ck.coverage["evaluations"] += n
+    ck.coverage["odd_file_names"] = {"cases": n, "stems": ODD_STEMS}
+
+
 def run_reuse_sequence(steps, tmp):
     """ONE `getParser('auto')` object used for all steps; each result is compared with a new auto parser and with the
     written format named explicitly.  steps = [{"written", "text", "method", "ext"}] -> list of (index, key, what)."""
@@ -1038,6 +1102,7 @@ def run(ck):
         cases, formats, header, newfile, skipped = load_cases(ck, rep, tmp)
         res = evaluate_cases(ck, cases, formats, header, newfile)
         reuse_stream(ck, cases, tmp)
+        names_stream(ck, cases, tmp)
         hist = {}
         for c, path, matrix, got, model, fails in res:
             ck.coverage["evaluations"] += 1
@@ -1151,6 +1216,14 @@ def replay(path):
     kind = r.get("kind")
     want = r.get("key", "")
     col = Collector("C12")
+    if kind == "names":
+        tmp = tempfile.mkdtemp(prefix="verif_c12_replay_")
+        try:
+            bad = names_case(r["written"], r["text"], r["stem"], r["ext"], r["relative"], r["entry"], tmp)
+        finally:
+            shutil.rmtree(tmp, ignore_errors=True)
+        print(bad[1] if bad else "the file %r loads like its text" % (r["stem"] + r["ext"]))
+        return 1 if bad else 0
     if kind == "order":
         from diffpy.structure.parsers.p_auto import P_auto
 
